@@ -1076,8 +1076,8 @@ func childStress(seed uint64, n int, maxNodes int, fixed string) int {
 			}
 			r.judgeFinal(result)
 			fmt.Fprintf(w, "C\trunner.stress.%d\tfinal %s %s\tok\n", limit, j.Params, strings.ReplaceAll(r.summary(result), " ", ","))
-		case <-time.After(8 * time.Second):
-			r.violate("C05", "hang", fmt.Sprintf("free-running build did not finish within 8s on %d CPUs (deadlock)", limit))
+		case <-time.After(20 * time.Second):
+			r.violate("C05", "hang", fmt.Sprintf("free-running build did not finish within 20s on %d CPUs (deadlock)", limit))
 			if limit == 1 {
 				r.violate("C09", "hang-limit-one", "build did not complete with a parallelism limit of one")
 			}
